@@ -208,7 +208,9 @@ def gen_label_cases(rng, tier):
                 r = r + 10 * f           # regions are per file
             nm = rng.choice(names if rng.random() < 0.9 else names[:8])
             if rng.random() < 0.5:
-                ops.append(['set', [f, r], nm, rng.randint(0, 500)])
+                prev = [o[3] for o in ops if o[0] == 'set' and o[2] == nm]
+                v = prev[-1] if prev and rng.random() < 0.5 else rng.randint(0, 500)    # equal-value redefinitions too
+                ops.append(['set', [f, r], nm, v])
             else:
                 ops.append(['get', [f, r], nm])
         cases.append({'ops': ops})
